@@ -52,7 +52,17 @@ func main() {
 		noMut   = flag.Bool("nomutants", false, "thorough tier without mutant self-validation")
 		onlyMut = flag.String("mutant", "", "internal: evaluate one mutant (prop:name) against -repo and print the fired keys")
 	)
+	explain := flag.Bool("explain", false, "print {id: explanation} of every implemented property as JSON")
 	flag.Parse()
+	if *explain {
+		m := map[string]string{}
+		for id, p := range props {
+			m[id] = p.Explain
+		}
+		b, _ := json.MarshalIndent(m, "", " ")
+		fmt.Println(string(b))
+		return
+	}
 	if *tier == "" {
 		*tier = "quick"
 	}
